@@ -24,8 +24,18 @@ fn build(shape: usize, labels: &[u8], n_tags: usize) -> (Vec<char>, Vec<Option<S
 /// keeps a link to that predictor); 2 = a sentence that held another tokenized, tagged text and was
 /// then given this one with update_raw.
 pub fn check_case(shape: usize, labels: &[u8], n_tags: usize) -> Option<(String, String)> {
-    let origin = shape / 2;
     let (text, tags) = build(shape % 2, labels, n_tags);
+    check_built(shape / 2, text, tags, labels, n_tags)
+}
+
+/// The same check on an explicitly given text (tags as `build` makes them).
+pub fn check_text(origin: usize, text: &[char], labels: &[u8], n_tags: usize) -> Option<(String, String)> {
+    let n = text.len();
+    let tags: Vec<Option<String>> = (0..n * n_tags).map(|k| if k % 5 == 3 { None } else { Some(format!("t{}/{}", k / n_tags, k % n_tags)) }).collect();
+    check_built(origin, text.to_vec(), tags, labels, n_tags)
+}
+
+fn check_built(origin: usize, text: Vec<char>, tags: Vec<Option<String>>, labels: &[u8], n_tags: usize) -> Option<(String, String)> {
     let t: String = text.iter().collect();
     let made = guard(|| {
         let mut s = match origin {
@@ -99,6 +109,12 @@ fn lab(labels: &[u8]) -> String {
 }
 
 pub fn replay(case: &Value) -> Option<(String, String)> {
+    if let Some(t) = case["text"].as_str() {
+        let text: Vec<char> = t.chars().collect();
+        let labels: Vec<u8> = case["labels"].as_str()?.chars().map(|c| "NWU".find(c).unwrap() as u8).collect();
+        let (origin, n_tags) = (case["origin"].as_u64()? as usize, case["n_tags"].as_u64()? as usize);
+        return check_text(origin, &text, &labels, n_tags).map(|(k, w)| (format!("{k} text={t:?} labels={} origin={origin} n_tags={n_tags}", lab(&labels)), w));
+    }
     let shape = case["shape"].as_u64()? as usize;
     let n_tags = case["n_tags"].as_u64()? as usize;
     let labels: Vec<u8> = case["labels"].as_str()?.chars().map(|c| "NWU".find(c).unwrap() as u8).collect();
@@ -194,6 +210,27 @@ pub fn run(tier: Tier) -> ! {
                     if let Some((k, what)) = check_case(shape, labels, n_tags) {
                         let what: String = what.chars().take(400).collect();
                         chk.violation(format!("{k} labels=len{}hash{:x} shape={shape} n_tags={n_tags}", labels.len(), gen::mix(labels.iter().fold(7u64, |a, &b| gen::mix(a ^ b as u64)))), what, json!({"shape": shape, "labels": lab(labels), "n_tags": n_tags, "short": true}));
+                    }
+                }
+            }
+        });
+    }
+    // every MIX of character widths: all texts up to 4 / 5 characters over one 1-, 2-, 3- and 4-byte character
+    // (every coincidence between byte and character totals occurs, e.g. bytes = 3 x characters without every
+    // character having three bytes) x every label vector x two origins
+    {
+        let texts = gen::strings(&['a', 'é', 'あ', '𠮷'], 1, tier.pick(4, 5));
+        chk.set("width_mix_texts", json!(texts.len()));
+        texts.par_iter().for_each(|text| {
+            for labels in gen::vectors(3, text.len() - 1) {
+                for origin in [0usize, 2] {
+                    for n_tags in [0usize, 2] {
+                        chk.eval(1);
+                        chk.nontrivial(1);
+                        if let Some((k, what)) = check_text(origin, text, &labels, n_tags) {
+                            let t = gen::s(text);
+                            chk.violation(format!("{k} text={t:?} labels={} origin={origin} n_tags={n_tags}", lab(&labels)), what, json!({"text": t, "labels": lab(&labels), "origin": origin, "n_tags": n_tags}));
+                        }
                     }
                 }
             }
